@@ -219,6 +219,8 @@ class PassDirective:
                                     argument_node, value, ctx):
         self._hit(ctx, "argument")
         await self._susp(ctx, "argument", argument_definition_node.name.value)
+        if value == 1313:  # an argument guard refusing a value with the application's long-lived error constant
+            raise SHARED_ERROR
         return await next_directive(parent_node, argument_definition_node, argument_node, value, ctx)
 
     async def on_post_input_coercion(self, directive_args, next_directive, parent_node, value, ctx):
